@@ -4,6 +4,7 @@ Model: non-trailer segments unchanged and in order; every trailer regenerated fr
 count, whether supplied (right or wrong), omitted inside an enclosing trailer, or left open at Close().
 """
 import io
+import os
 
 from .. import core, x12ref, envmodel
 
@@ -115,8 +116,15 @@ def check_case(case):
     if not ops:
         return out
     buf = io.StringIO()
+    dest_path = None
+    if case.get('dest') == 'path':
+        # the destination named by path: the writer opens (and must finish) the file itself
+        import tempfile
+        fd_, dest_path = tempfile.mkstemp(prefix='vpx_c11_', suffix='.x12')
+        os.close(fd_)
+        out.classes.append('destination-by-path')
     try:
-        w = pyx12.x12file.X12Writer(buf, seg_term=dl['term'], ele_term=dl['ele'], subele_term=dl['sub'], eol=dl['eol'],
+        w = pyx12.x12file.X12Writer(dest_path or buf, seg_term=dl['term'], ele_term=dl['ele'], subele_term=dl['sub'], eol=dl['eol'],
                                     repetition_term=dl['rep'])
         w.check_837_lx = lx
         for op in ops:
@@ -130,8 +138,15 @@ def check_case(case):
         w.Close()
     except Exception as e:
         out.fail(core.exc_bucket(e, 'writer'), core.exc_detail(e))
+        if dest_path:
+            os.unlink(dest_path)
         return out
-    text = buf.getvalue()
+    if dest_path:
+        with open(dest_path, 'r', encoding='ascii', newline='') as fh:
+            text = fh.read()
+        os.unlink(dest_path)
+    else:
+        text = buf.getvalue()
     icvn = '00501' if '*00501*' in ops[0] else '00401'
     exp = [(sid, [[_literal(c) for c in e] for e in els]) for sid, els in model(ops, dl, icvn, lx)]
     # ISA carries the writer's delimiters
@@ -289,7 +304,7 @@ def strategy(tier):
             if prefix < len(ops):
                 classes.add('closed-at-prefix')
         # keep well-nestedness of the prefix: an omitted inner trailer followed by a header at a lower level is still nested
-        return {'ops': ops, 'prefix': prefix, 'lx': lx, 'src_delims': src,
+        return {'ops': ops, 'prefix': prefix, 'lx': lx, 'src_delims': src, 'dest': draw(st.sampled_from(['stream', 'stream', 'stream', 'path'])),
                 'delims': {'term': term, 'ele': ele, 'sub': sub, 'rep': rep, 'eol': eol},
                 'meta': {'classes': sorted(classes)}}
 
